@@ -547,6 +547,9 @@ class ktensor:
                 "components in ktensor."
             )
 
+        if weight_factor is not None and weight_factor not in range(self.ndims):
+            assert False, "Input parameter 'weight_factor' must be in the range of self.ndims"
+
         # TODO there is a relationship here between normalize and arrange that repeats
         #  tasks. Can this be made to be more efficient? ensure that factor matrices
         #  are normalized
